@@ -306,3 +306,312 @@ func c14AnyRejectedByDeviationCheck(ctx *core.Ctx, r *core.Report) {
 	r.Ob("guard-backing", "meta.resolver.checkDeviationTarget/rejects-any", ctx.Pos(f.Pos()), ok,
 		"checkDeviationTarget no longer tests whether the target is anydata/anyxml: a deviation stating units, default or type on such a node reaches Any.setUnits/addDefault/setType, which panic")
 }
+
+// sliceHighGuarded (C15): a slice expression x[lo:hi] with a computed hi is
+// dominated by a comparison of that same hi with the length of x (or with a
+// constant, for a constant x). A guard on some other quantity (the level, when
+// the bound is twice the level) does not protect the expression: the pretty
+// writer's indentation is padding[0:2*lvl].
+func sliceHighGuarded(ctx *core.Ctx, r *core.Report, fns []*ssa.Function) int {
+	n := 0
+	for _, f := range fns {
+		core.Instrs(f, func(b *ssa.BasicBlock, in ssa.Instruction) {
+			sl, ok := in.(*ssa.Slice)
+			if !ok || sl.High == nil {
+				return
+			}
+			if _, isConst := sl.High.(*ssa.Const); isConst {
+				return
+			}
+			if !isStringType(sl.X.Type()) {
+				if _, isSl := sl.X.Type().Underlying().(*types.Slice); !isSl {
+					return
+				}
+			}
+			n++
+			guarded := false
+			// same value compared with something, on a dominating branch or as the loop condition
+			for _, pc := range core.PathConds(b) {
+				bo, isBo := pc.V.(*ssa.BinOp)
+				if !isBo {
+					continue
+				}
+				switch bo.Op {
+				case token.LSS, token.LEQ, token.GTR, token.GEQ, token.NEQ, token.EQL:
+				default:
+					continue
+				}
+				if core.Strip(bo.X) == core.Strip(sl.High) || core.Strip(bo.Y) == core.Strip(sl.High) || sameArith(bo.X, sl.High) || sameArith(bo.Y, sl.High) {
+					guarded = true
+				}
+			}
+			// hi = len(x) - k, or a value derived from len(x)/an index search on x is in range by construction
+			if derivesFromLenOf(sl.High, sl.X, 0) {
+				guarded = true
+			}
+			r.Ob("slice-bound-guarded", fmt.Sprintf("%s/%s[:%s]", core.FnName(f), sl.X.Name(), sl.High.Name()), ctx.Pos(sl.Pos()), guarded,
+				"the upper bound of this slice expression is computed, and no dominating comparison tests that same value against the length (a guard on a related quantity — the nesting level, when the bound is twice the level — does not cover it): out of range for large inputs, e.g. pretty printing beyond 43 levels")
+		})
+	}
+	return n
+}
+
+func sameArith(a, b ssa.Value) bool {
+	x, ok1 := core.Strip(a).(*ssa.BinOp)
+	y, ok2 := core.Strip(b).(*ssa.BinOp)
+	if !ok1 || !ok2 || x.Op != y.Op {
+		return false
+	}
+	eq := func(p, q ssa.Value) bool {
+		if core.Strip(p) == core.Strip(q) {
+			return true
+		}
+		cp, okp := core.ConstInt(p)
+		cq, okq := core.ConstInt(q)
+		return okp && okq && cp == cq
+	}
+	return (eq(x.X, y.X) && eq(x.Y, y.Y)) || (eq(x.X, y.Y) && eq(x.Y, y.X))
+}
+
+func derivesFromLenOf(v, x ssa.Value, d int) bool {
+	if d > 4 {
+		return false
+	}
+	switch y := core.Strip(v).(type) {
+	case *ssa.Call:
+		if b, ok := y.Common().Value.(*ssa.Builtin); ok && b.Name() == "len" {
+			return true
+		}
+		if cal := y.Common().StaticCallee(); cal != nil && cal.Pkg != nil && (cal.Pkg.Pkg.Path() == "strings" || cal.Pkg.Pkg.Path() == "bytes") && strings.HasPrefix(cal.Name(), "Index") {
+			return true
+		}
+	case *ssa.BinOp:
+		return derivesFromLenOf(y.X, x, d+1) || derivesFromLenOf(y.Y, x, d+1)
+	case *ssa.Phi:
+		for _, e := range y.Edges {
+			if derivesFromLenOf(e, x, d+1) {
+				return true
+			}
+		}
+	}
+	return false
+}
+
+// c16LiteralExact: a number written in a where/when/filter expression is parsed
+// as an integer unless it has a fraction: ParseFloat on a whole number above 2^53
+// yields a neighbouring number, and the comparison is then made with the wrong one.
+func c16LiteralExact(ctx *core.Ctx, r *core.Report) {
+	f := ctx.Fn("xpath", "num")
+	if f == nil {
+		r.Fatalf("anchor xpath.num not found")
+		return
+	}
+	n := 0
+	for _, c := range core.CallSites(f) {
+		cal := core.StaticCallee(c)
+		if cal == nil || core.FnName(cal) != "strconv.ParseFloat" {
+			continue
+		}
+		n++
+		ok := false
+		for _, pc := range core.PathConds(c.Block()) {
+			if call, isCall := pc.V.(*ssa.Call); isCall && pc.True {
+				if cc := core.StaticCallee(call); cc != nil && cc.Pkg != nil && cc.Pkg.Pkg.Path() == "strings" && strings.HasPrefix(cc.Name(), "Contains") {
+					ok = true
+				}
+			}
+			// or only after an integer parse failed
+			if bo, isBo := pc.V.(*ssa.BinOp); isBo && (core.IsNilConst(bo.Y) || core.IsNilConst(bo.X)) {
+				for _, c2 := range core.CallSites(f) {
+					if cc := core.StaticCallee(c2); cc != nil && (core.FnName(cc) == "strconv.ParseInt" || core.FnName(cc) == "strconv.ParseUint") {
+						if ev := errResult(c2); ev != nil && dependsOn(bo, ev, 0) {
+							ok = true
+						}
+					}
+				}
+			}
+		}
+		r.Ob("literal-exact", "xpath.num/ParseFloat", ctx.Pos(c.Pos()), ok,
+			"every numeric literal of an expression is parsed as float64, also whole numbers: above 2^53 the literal becomes a neighbouring number before it is converted to the leaf's 64-bit type, so =, < and > compare with the wrong value")
+	}
+	if n == 0 {
+		r.Ob("literal-exact", "xpath.num/ParseFloat", ctx.Pos(f.Pos()), true, "no float parse")
+	}
+}
+
+// c18HandlerFollowsContainer: the slice-backed list handler of nodeutil.Node keeps
+// the slice it works on (sliceAsList.src). Whenever it makes a new slice (append,
+// delete by re-slicing) it stores it there on every path — also when it hands it
+// to the owner's update callback: ReplaceFrom deletes and inserts through the
+// same handler, and the insert would append to the slice as it was before.
+func c18HandlerFollowsContainer(ctx *core.Ctx, r *core.Report) {
+	sl := ctx.Named("nodeutil", "sliceAsList")
+	if sl == nil {
+		r.Fatalf("anchor nodeutil.sliceAsList not found")
+		return
+	}
+	n := 0
+	for _, f := range scopeFuncs(ctx, "nodeutil", "node_slice.go") {
+		rv := f.Signature.Recv()
+		if rv == nil || core.NamedOf(rv.Type()) != sl || len(f.Params) == 0 {
+			continue
+		}
+		recv := f.Params[0]
+		for _, c := range core.CallSites(f) {
+			cal := core.StaticCallee(c)
+			if cal == nil || (core.FnName(cal) != "reflect.Append" && core.FnName(cal) != "reflect.AppendSlice") {
+				continue
+			}
+			n++
+			// stores of that value into recv.src
+			var stores []*ssa.Store
+			core.Instrs(f, func(_ *ssa.BasicBlock, in ssa.Instruction) {
+				st, ok := in.(*ssa.Store)
+				if !ok {
+					return
+				}
+				fa, ok := st.Addr.(*ssa.FieldAddr)
+				if !ok || fa.X != ssa.Value(recv) {
+					return
+				}
+				if core.Deref(recv.Type()).Underlying().(*types.Struct).Field(fa.Field).Name() == "src" && valueDependsOn(st.Val, c.Value(), map[ssa.Value]bool{}) {
+					stores = append(stores, st)
+				}
+			})
+			ok := true
+			for _, ret := range core.Returns(f) {
+				if !instrDominates(c.(ssa.Instruction), ret) {
+					continue
+				}
+				dom := false
+				for _, st := range stores {
+					if instrDominates(st, ret) {
+						dom = true
+					}
+				}
+				if !dom {
+					ok = false
+				}
+			}
+			r.Ob("handler-follows-container", core.FnName(f)+"/"+cal.Name(), ctx.Pos(c.Pos()), ok && len(stores) > 0,
+				"the list handler makes a new slice here but can return without having stored it as the slice it works on (src): the next operation through the same handler — the insert of a ReplaceFrom after its delete — works on the slice as it was before, so an entry is duplicated or comes back")
+		}
+	}
+	r.Floor("handler-follows-container", n, 2)
+	// and struct fields are addressed by their full index path (promoted fields of embedded structs)
+	m := 0
+	for _, f := range scopeFuncs(ctx, "nodeutil", "node_struct.go") {
+		core.Instrs(f, func(_ *ssa.BasicBlock, in ssa.Instruction) {
+			ia, ok := in.(*ssa.IndexAddr)
+			if !ok {
+				return
+			}
+			u, ok := core.Strip(ia.X).(*ssa.UnOp)
+			if !ok {
+				return
+			}
+			fa, ok := u.X.(*ssa.FieldAddr)
+			if !ok {
+				return
+			}
+			if n := core.NamedOf(fa.X.Type()); n != nil && n.Obj().Name() == "StructField" && n.Obj().Pkg() != nil && n.Obj().Pkg().Path() == "reflect" {
+				if core.Deref(fa.X.Type()).Underlying().(*types.Struct).Field(fa.Field).Name() == "Index" {
+					m++
+					r.Ob("handler-follows-container", core.FnName(f)+"/StructField.Index[i]", ctx.Pos(ia.Pos()), false,
+						"a struct field is addressed by one element of its index path instead of the whole path (FieldByIndex): for a field promoted from an embedded struct that is the embedded struct itself, so clearing the field zeroes all its siblings")
+				}
+			}
+		})
+	}
+	r.Count("instances:handler-follows-container(partial index paths)", m)
+}
+
+// c19DecoderStrict: the XML reader decodes with the decoder's strict defaults.
+// Lenient/HTML settings (Strict=false, AutoClose, Entity) make the decoder close
+// elements named like HTML void elements (link, base, meta, input, …) by itself:
+// a schema node of such a name loses its content and ends its parent early.
+func c19DecoderStrict(ctx *core.Ctx, r *core.Report) {
+	n := 0
+	for _, f := range scopeFuncs(ctx, "nodeutil") {
+		core.Instrs(f, func(_ *ssa.BasicBlock, in ssa.Instruction) {
+			st, ok := in.(*ssa.Store)
+			if !ok {
+				return
+			}
+			fa, ok := st.Addr.(*ssa.FieldAddr)
+			if !ok {
+				return
+			}
+			nn := core.NamedOf(fa.X.Type())
+			if nn == nil || nn.Obj().Name() != "Decoder" || nn.Obj().Pkg() == nil || !strings.HasSuffix(nn.Obj().Pkg().Path(), "xml") {
+				return
+			}
+			fld := core.Deref(fa.X.Type()).Underlying().(*types.Struct).Field(fa.Field).Name()
+			if fld == "Strict" || fld == "AutoClose" || fld == "Entity" {
+				n++
+				r.Ob("decoder-strict", core.FnName(f)+"/Decoder."+fld, ctx.Pos(st.Pos()), false,
+					"the XML reader changes the decoder's "+fld+" setting: with the lenient/HTML settings elements named like HTML void elements (link, base, meta, input, …) are closed by the decoder itself, their content is lost and their end tag closes the parent, silently")
+			}
+		})
+	}
+	r.Ob("decoder-strict", "nodeutil/scanned", "nodeutil/xml_rdr.go", ctx.Fn("nodeutil", "ReadXMLDoc") != nil, "anchor nodeutil.ReadXMLDoc not found")
+}
+
+// c19KeysFoundIndependently: in XmlNode.Next each key leaf of an entry is looked up
+// among all children of the entry: the writers emit children in the order they
+// are declared, which need not be the order of the key statement, so a search
+// that starts where the previous key was found misses keys.
+func c19KeysFoundIndependently(ctx *core.Ctx, r *core.Report) {
+	f := ctx.Method("nodeutil", "XmlNode", "Next")
+	find := ctx.Method("nodeutil", "XmlNode", "Find")
+	if f == nil || find == nil {
+		r.Fatalf("anchors nodeutil.XmlNode.Next / Find not found")
+		return
+	}
+	for i, c := range callsStatic(f, find, false) {
+		start := c.Common().Args[1]
+		k, isC := core.ConstInt(start)
+		r.Ob("keys-found-independently", fmt.Sprintf("nodeutil.XmlNode.Next/Find#%d", i+1), ctx.Pos(c.Pos()), isC && k == 0,
+			"the search for a key leaf of a list entry does not start at the entry's first child (it continues from where the previous key was found): when the key statement orders the leaves differently from their declaration — the order both writers emit — the key is 'missing' and the library cannot read its own output")
+	}
+	r.Ob("keys-found-independently", "nodeutil.XmlNode.Next", ctx.Pos(f.Pos()), true, "")
+}
+
+// c19CarriageReturnEscaped: the patched encoder writes a carriage return in text
+// as &#xD; — an XML parser turns a literal CR (and CR LF) into LF, so anything
+// else does not read back as written.
+func c19CarriageReturnEscaped(ctx *core.Ctx, r *core.Report) {
+	f := ctx.Fn("patch/xml", "escapeText")
+	esc := globalVar(ctx, "patch/xml", "escCR")
+	if f == nil || esc == nil {
+		r.Fatalf("anchors patch/xml.escapeText / escCR not found")
+		return
+	}
+	ok := false
+	core.Instrs(f, func(b *ssa.BasicBlock, in ssa.Instruction) {
+		u, isU := in.(*ssa.UnOp)
+		if !isU || u.X != ssa.Value(esc) {
+			return
+		}
+		// loaded on the side where the rune is '\r'
+		for _, pc := range core.PathConds(b) {
+			if bo, isBo := pc.V.(*ssa.BinOp); isBo && bo.Op == token.EQL && pc.True {
+				if k, isC := core.ConstInt(bo.Y); isC && k == '\r' {
+					ok = true
+				}
+			}
+		}
+		// switch on a rune compiles to a chain of ==: the load may sit in the block reached by the true edge
+		for _, p := range b.Preds {
+			if ifi, isIf := p.Instrs[len(p.Instrs)-1].(*ssa.If); isIf && p.Succs[0] == b {
+				if bo, isBo := ifi.Cond.(*ssa.BinOp); isBo && bo.Op == token.EQL {
+					if k, isC := core.ConstInt(bo.Y); isC && k == '\r' {
+						ok = true
+					}
+				}
+			}
+		}
+	})
+	r.Ob("text-through-encoder", "patch/xml.escapeText/carriage-return", ctx.Pos(f.Pos()), ok,
+		"escapeText no longer writes a carriage return as &#xD; (its own case, escCR): a literal CR is normalised to LF by every XML parser, so text containing CR or CR LF does not come back as written")
+}
